@@ -111,9 +111,23 @@ func Registry() []*Spec {
 		Quick: map[string]int{}, Thorough: map[string]int{},
 		Covers: []string{"done"}, UnitDepth: 4,
 		Note: "the copy is unchanged after every member of every container of the original is overwritten"})
+	add(Spec{Property: "C18", Name: "VerifC18_GenDup", Pkg: "asm",
+		Quick: map[string]int{}, Thorough: map[string]int{},
+		Covers: []string{"done"}, UnitDepth: 4,
+		Note: "gen.Node.Dup on the generified shapes: equal value, and scribbling over the duplicate (or the original) at the gen level leaves the other side unchanged"})
 	add(Spec{Property: "C18", Name: "VerifC18_WriteGen", Pkg: "asm",
 		Quick: map[string]int{}, Thorough: map[string]int{},
 		Covers: []string{"done"}, UnitDepth: 4,
 		Note: "oj.Writer output for a gen tree equals the output for its simple equivalent (Sort, tight and Indent 2)"})
+	// ---- C20: assembly plans
+	add(Spec{Property: "C20", Name: "VerifC20_Plan", Pkg: "asm",
+		Quick: map[string]int{"ARITY": 2}, Thorough: map[string]int{"ARITY": 3},
+		Covers: []string{"ok", "error"}, UnitDepth: 4,
+		AllowUnsupported: []string{"formatted (fmt) string", "(reflect.Value)."},
+		Note: "plans [set $.asm [fn args...]] for 19 functions (sum dif product quotient lt gt lte gte eq neq and or not size nth reverse append cond mod), arity 1..ARITY, argument kinds {symbolic int, $.src path to a symbolic int, nested [sum x 1], symbolic bool, symbolic 1-byte string, nil, concrete float}: no panic, deterministic, $.src unchanged, all-int / all-bool cells equal the documented result, String() -> sen.Parse -> NewPlan behaves the same"})
+	add(Spec{Property: "C20", Name: "VerifC20_Strings", Pkg: "asm",
+		Quick: map[string]int{}, Thorough: map[string]int{},
+		Covers: []string{"true", "false"}, UnitDepth: 3,
+		Note: "lt gt lte gte eq on 2..3 symbolic one-byte strings: true iff every argument relates to its successor"})
 	return r
 }
